@@ -77,6 +77,7 @@ def validate_trace(run, module, path, nontrivial=None, what="no behaviour of the
         if res.get("cases") != len(cases):
             raise T.ToolError("trace spec %s consumed %s of %d cases" % (module, res.get("cases"), len(cases)))
         bad = set(res.get("bad", []))
+        kfhits = {int(x[0]): x[1] for x in res.get("kf", [])}
         run.extra["outside_pinned_semantics"] = run.extra.get("outside_pinned_semantics", 0) + res.get("dev", 0)
         for c in cases:
             if "a" in c and "op" in c:
@@ -87,6 +88,8 @@ def validate_trace(run, module, path, nontrivial=None, what="no behaviour of the
             run.note_case(key, nt)
             if c["id"] in bad:
                 run.violation(c, what)
+            elif c["id"] in kfhits:
+                run.known_finding(kfhits[c["id"]], c, what)
             else:
                 run.traces += 1
                 if nt:
@@ -493,3 +496,18 @@ def c13(run):
     path = drive_ops(run, "c13")
     validate_trace(run, "CelOpTrace", path, sample_key=op_sample, nontrivial=lambda c: True,
                    what="numeric literal / conversion: value differs from the number denoted, or an out-of-range case was not rejected")
+
+
+@check("C12")
+def c12(run):
+    run.rule = ("model: CelLiteralMC -- every string of length <=2 over a 9-character alphabet (quotes, backslash, newline, non-ASCII, astral, NUL, U+FFFF) spelled in each "
+                "quoting style with every verbatim/escape choice per character decodes to itself; impl->spec: every \\\\x, \\\\X, \\\\OOO (valid and invalid), \\\\u (quick: every 61st "
+                "value plus boundaries and the surrogate range; thorough: all 65536), \\\\U at plane boundaries, surrogates, 10FFFF, 110000 and random values, every single-character "
+                "escape and malformed escapes, in each of the 4 quoting styles, as string, bytes, raw and raw bytes literals, alone and between neighbours; random strings/byte "
+                "sequences with random style and per-character spelling; non-trivial = the literal contains a backslash or a non-ASCII character")
+    model_check(run, "CelLiteralMC", workers=8)
+    run.exhaustive = True
+    path = drive_ops(run, "c12")
+    validate_trace(run, "CelOpTrace", path, sample_key=lambda c: {"src": c["src"], "out": c["out"]},
+                   nontrivial=lambda c: "\\" in c["src"] or any(ord(ch) > 127 for ch in c["src"]),
+                   what="string/bytes literal: the value differs from the characters the literal denotes, or an invalid literal compiled")
